@@ -140,23 +140,24 @@ type xBlock struct {
 }
 
 type xOpRec struct {
-	Op  []any            `json:"op"`
-	Ret any              `json:"ret"`
-	Ev  map[string]any   `json:"ev,omitempty"`
-	CH  [xNTx]*uint32    `json:"ch"`
-	SH  [xNOp]*uint32    `json:"sh"`
-	Cur int              `json:"cur"`
+	Op  []any          `json:"op"`
+	Ret any            `json:"ret"`
+	Ev  map[string]any `json:"ev,omitempty"`
+	CH  [xNTx]*uint32  `json:"ch"`
+	SH  [xNOp]*uint32  `json:"sh"`
+	Cur int            `json:"cur"`
 }
 
 type xCase struct {
-	CI    int        `json:"ci"`
-	Kind  string     `json:"kind"`
-	Start int        `json:"start"`
-	Limit int        `json:"limit"`
-	Pre   [][]any    `json:"pre"`
-	CH0   [xNTx]*uint32 `json:"ch0"`
-	SH0   [xNOp]*uint32 `json:"sh0"`
-	Ops   []xOpRec   `json:"ops"`
+	CI     int           `json:"ci"`
+	Kind   string        `json:"kind"`
+	Parent int           `json:"parent,omitempty"`
+	Start  int           `json:"start"`
+	Limit  int           `json:"limit"`
+	Pre    [][]any       `json:"pre"`
+	CH0    [xNTx]*uint32 `json:"ch0"`
+	SH0    [xNOp]*uint32 `json:"sh0"`
+	Ops    []xOpRec      `json:"ops"`
 }
 
 type xConfClient struct {
@@ -199,6 +200,7 @@ type xWorld struct {
 	cpend  [xNTx][]xPending
 	spend  [xNOp][]xPending
 	rec    *xCase
+	ustart int // first height of the historical dispatch the next upd/supd answers (0 = whole chain)
 }
 
 func (w *xWorld) cur() int { return len(w.chain) }
@@ -515,7 +517,12 @@ func (w *xWorld) opUpd(tx int, ans []int, mode string) {
 		a = ans
 	}
 	err := w.n.UpdateConfDetails(w.creq[tx], det)
-	w.record([]any{"upd", tx, a, mode}, xErrCode(err))
+	st := w.ustart
+	if st < 1 {
+		st = 1
+	}
+	w.ustart = 0
+	w.record([]any{"upd", tx, a, mode, st}, xErrCode(err))
 }
 
 // ans: nil or [height, spender tx]
@@ -534,7 +541,12 @@ func (w *xWorld) opSUpd(op int, ans []int, mode string) {
 		a = ans
 	}
 	err := w.n.UpdateSpendDetails(w.sreq[op], det)
-	w.record([]any{"supd", op, a, mode}, xErrCode(err))
+	st := w.ustart
+	if st < 1 {
+		st = 1
+	}
+	w.ustart = 0
+	w.record([]any{"supd", op, a, mode, st}, xErrCode(err))
 }
 
 func (w *xWorld) opConnect(height int, txs []int) {
@@ -735,7 +747,15 @@ func (w *xWorld) clientOp(r *xrng) {
 		if !r.pct(12) { // sometimes deliver a second answer for the same dispatch
 			w.cpend[tx] = w.cpend[tx][1:]
 		}
-		switch m := r.intn(100); {
+		m := r.intn(100)
+		// the registration-time snapshot is outdated by now (the tx was included /
+		// moved / reorged out while the rescan was running): deliver it often
+		if nh, nb := w.findTx(tx, p.start, w.cur()); r.pct(45) &&
+			((p.snap == nil) != (nh == 0) || (p.snap != nil && (p.snap[0] != nh || p.snap[1] != nb))) {
+			m = 90
+		}
+		w.ustart = p.start
+		switch {
 		case m < 70:
 			h, b := w.findTx(tx, p.start, w.cur())
 			if h > 0 {
@@ -744,6 +764,7 @@ func (w *xWorld) clientOp(r *xrng) {
 				w.opUpd(tx, nil, "now")
 			}
 		case m < 82:
+			w.ustart = 1
 			h, b := w.findTx(tx, 1, w.cur())
 			if h > 0 {
 				w.opUpd(tx, []int{h, b}, "index")
@@ -781,7 +802,13 @@ func (w *xWorld) clientOp(r *xrng) {
 		if !r.pct(12) {
 			w.spend[op] = w.spend[op][1:]
 		}
-		switch m := r.intn(100); {
+		m := r.intn(100)
+		if nh, nx := w.findSpend(op, p.start, w.cur()); r.pct(45) &&
+			((p.snap == nil) != (nh == 0) || (p.snap != nil && (p.snap[0] != nh || p.snap[1] != nx))) {
+			m = 90
+		}
+		w.ustart = p.start
+		switch {
 		case m < 70:
 			h, x := w.findSpend(op, p.start, w.cur())
 			if h > 0 {
@@ -790,6 +817,7 @@ func (w *xWorld) clientOp(r *xrng) {
 				w.opSUpd(op, nil, "now")
 			}
 		case m < 82:
+			w.ustart = 1
 			h, x := w.findSpend(op, 1, w.cur())
 			if h > 0 {
 				w.opSUpd(op, []int{h, x}, "index")
@@ -828,7 +856,146 @@ func (w *xWorld) clientOp(r *xrng) {
 	}
 }
 
-func xRandomCase(t *testing.T, hc *channeldb.HeightHintCache, r *xrng, ci int) *xCase {
+// racePrelude: a request is registered while its tx is unconfirmed (historical
+// rescan dispatched), the tx is included at tip, k more blocks connect, and only
+// then the -- by now outdated -- rescan result is delivered ("not found" as
+// computed at registration time), possibly followed by more blocks.
+func (w *xWorld) racePrelude(r *xrng) {
+	cand := w.candidates()
+	if len(cand) == 0 {
+		return
+	}
+	tx := cand[r.intn(len(cand))]
+	spend := r.pct(40)
+	hint := 1 + r.intn(w.cur())
+	if spend {
+		w.opSReg(xSpends[tx], hint)
+	} else {
+		w.opReg(tx, 1+r.intn(2), hint)
+	}
+	w.opConnect(w.cur()+1, []int{tx})
+	w.opNotify()
+	for k := r.intn(3); k > 0; k-- {
+		w.opConnect(w.cur()+1, []int{})
+		if r.pct(30) {
+			w.clientOp(r)
+		}
+		w.opNotify()
+	}
+	if r.pct(75) {
+		if spend {
+			if ps := w.spend[xSpends[tx]]; len(ps) > 0 {
+				w.spend[xSpends[tx]] = ps[1:]
+				w.ustart = ps[0].start
+				w.opSUpd(xSpends[tx], ps[0].snap, "snapshot")
+			}
+		} else if ps := w.cpend[tx]; len(ps) > 0 {
+			w.cpend[tx] = ps[1:]
+			w.ustart = ps[0].start
+			w.opUpd(tx, ps[0].snap, "snapshot")
+		}
+		if r.pct(50) {
+			w.opConnect(w.cur()+1, []int{})
+			w.opNotify()
+		}
+	}
+}
+
+// flushPending: at the end of a history most outstanding historical rescans
+// complete, late: with the registration-time snapshot or truthfully.
+func (w *xWorld) flushPending(r *xrng) {
+	for tx := 0; tx < xNTx; tx++ {
+		for len(w.cpend[tx]) > 0 {
+			p := w.cpend[tx][0]
+			w.cpend[tx] = w.cpend[tx][1:]
+			if !r.pct(70) {
+				continue
+			}
+			w.ustart = p.start
+			if r.pct(50) {
+				w.opUpd(tx, p.snap, "snapshot")
+			} else if h, b := w.findTx(tx, p.start, w.cur()); h > 0 {
+				w.opUpd(tx, []int{h, b}, "now")
+			} else {
+				w.opUpd(tx, nil, "now")
+			}
+		}
+	}
+	for op := 0; op < xNOp; op++ {
+		for len(w.spend[op]) > 0 {
+			p := w.spend[op][0]
+			w.spend[op] = w.spend[op][1:]
+			if !r.pct(70) {
+				continue
+			}
+			w.ustart = p.start
+			if r.pct(50) {
+				w.opSUpd(op, p.snap, "snapshot")
+			} else if h, x := w.findSpend(op, p.start, w.cur()); h > 0 {
+				w.opSUpd(op, []int{h, x}, "now")
+			} else {
+				w.opSUpd(op, nil, "now")
+			}
+		}
+	}
+}
+
+// xRestartCase: the "restart" observation.  A fresh TxNotifier is built on the
+// SAME hint cache at the final tip of a finished history; every request is
+// registered again with height hint = its cached hint (1 if none) and the
+// historical dispatch is answered truthfully for the dispatched range on the
+// final chain.  A client must end up notified iff the tx has >= N confirmations
+// (the outpoint is spent) on the final chain: any persisted hint that is too
+// high makes the rescan miss it, whatever the cause.
+func xRestartCase(t *testing.T, hc *channeldb.HeightHintCache, w *xWorld) *xCase {
+	w2 := xNewWorld(t, hc, w.rec.CI, len(w.chain), w.limit, "restart")
+	w2.rec.Parent = w.rec.CI
+	w2.rec.CI = w.rec.CI + 2000000
+	w2.chain = append([]xBlock{}, w.chain...)
+	w2.blocks, w2.bidOf, w2.nbid = w.blocks, w.bidOf, w.nbid
+	w2.boot()
+	ch, sh := w2.hints()
+	for tx := 0; tx < xNTx; tx++ {
+		hint, n := 1, 1
+		if ch[tx] != nil && *ch[tx] > 0 {
+			hint = int(*ch[tx])
+		}
+		if tx == 0 && w.limit >= 2 && w.rec.CI%2 == 1 {
+			n = 2
+		}
+		w2.opReg(tx, n, hint)
+		for len(w2.cpend[tx]) > 0 {
+			p := w2.cpend[tx][0]
+			w2.cpend[tx] = w2.cpend[tx][1:]
+			w2.ustart = p.start
+			if h, b := w2.findTx(tx, p.start, p.end); h > 0 {
+				w2.opUpd(tx, []int{h, b}, "now")
+			} else {
+				w2.opUpd(tx, nil, "now")
+			}
+		}
+	}
+	for op := 0; op < xNOp; op++ {
+		hint := 1
+		if sh[op] != nil && *sh[op] > 0 {
+			hint = int(*sh[op])
+		}
+		w2.opSReg(op, hint)
+		for len(w2.spend[op]) > 0 {
+			p := w2.spend[op][0]
+			w2.spend[op] = w2.spend[op][1:]
+			w2.ustart = p.start
+			if h, x := w2.findSpend(op, p.start, p.end); h > 0 {
+				w2.opSUpd(op, []int{h, x}, "now")
+			} else {
+				w2.opSUpd(op, nil, "now")
+			}
+		}
+	}
+	return w2.rec
+}
+
+func xRandomCase(t *testing.T, hc *channeldb.HeightHintCache, r *xrng, ci int) *xWorld {
 	limits := []int{144, 144, 144, 2, 3, 4, 5, 6}
 	limit := limits[r.intn(len(limits))]
 	start := 1 + r.intn(3)
@@ -852,6 +1019,10 @@ func xRandomCase(t *testing.T, hc *channeldb.HeightHintCache, r *xrng, ci int) *
 	w.boot()
 	maxH := start + 5
 	nops := 6 + r.intn(22)
+	if r.pct(30) {
+		w.racePrelude(r)
+	}
+	defer w.flushPending(r)
 	for k := 0; k < nops; k++ {
 		switch x := r.intn(100); {
 		case x < 45:
@@ -887,7 +1058,7 @@ func xRandomCase(t *testing.T, hc *channeldb.HeightHintCache, r *xrng, ci int) *
 			}
 		}
 	}
-	return w.rec
+	return w
 }
 
 // ---- exhaustive small histories (thorough tier) ----
@@ -895,7 +1066,7 @@ func xRandomCase(t *testing.T, hc *channeldb.HeightHintCache, r *xrng, ci int) *
 // One tx (T0) with conflicting T1, two clients; alphabet of 8 abstract moves,
 // all sequences of the given depth.
 func xEnumCase(t *testing.T, hc *channeldb.HeightHintCache, ci int, code []int,
-	limit int) *xCase {
+	limit int) *xWorld {
 
 	w := xNewWorld(t, hc, ci, 1, limit, "enum")
 	w.chain = append(w.chain, w.mkBlock([]int{}))
@@ -936,6 +1107,7 @@ func xEnumCase(t *testing.T, hc *channeldb.HeightHintCache, ci int, code []int,
 				p := w.cpend[0][0]
 				w.cpend[0] = w.cpend[0][1:]
 				h, b := w.findTx(0, p.start, w.cur())
+				w.ustart = p.start
 				if h > 0 {
 					w.opUpd(0, []int{h, b}, "now")
 				} else {
@@ -945,6 +1117,7 @@ func xEnumCase(t *testing.T, hc *channeldb.HeightHintCache, ci int, code []int,
 				p := w.spend[0][0]
 				w.spend[0] = w.spend[0][1:]
 				h, x := w.findSpend(0, p.start, w.cur())
+				w.ustart = p.start
 				if h > 0 {
 					w.opSUpd(0, []int{h, x}, "now")
 				} else {
@@ -957,12 +1130,12 @@ func xEnumCase(t *testing.T, hc *channeldb.HeightHintCache, ci int, code []int,
 			for _, c := range w.cc {
 				if !c.dead {
 					w.opCancel(c)
-					return w.rec
+					return w
 				}
 			}
 		}
 	}
-	return w.rec
+	return w
 }
 
 // ---- directed histories (always run) ----
@@ -1005,10 +1178,28 @@ var xDirected = [][]xStep{
 		{"pre", 0, -1, 0}, {"boot", 0, 0, 0}, {"sreg", 0, 1, 0}, {"scancel", 0, 0, 0},
 		{"supd", 0, 0, 0}, {"disc", 0, 0, 0}, {"conn", 0, -1, 0}, {"sreg", 0, 1, 0},
 		{"conn", 0, -1, 0}},
+	// OUTDATED rescan result: registered while unconfirmed (rescan dispatched), found
+	// at tip, one more block, THEN the rescan returns "not found" (as of registration
+	// time); one more block.  The answer must be ignored, the hint must stay at the
+	// confirmation / spend height.  N = 1, N = 2, spend twin.
+	{{"pre", 0, -1, 0}, {"boot", 0, 0, 0}, {"reg", 0, 1, 1}, {"conn", 1, 0, 0},
+		{"conn", 0, -1, 0}, {"updsnap", 0, 0, 0}, {"conn", 0, -1, 0}},
+	{{"pre", 0, -1, 0}, {"boot", 0, 0, 0}, {"reg", 0, 2, 1}, {"conn", 1, 0, 0},
+		{"conn", 0, -1, 0}, {"conn", 0, -1, 0}, {"updsnap", 0, 0, 0}, {"conn", 0, -1, 0}},
+	{{"pre", 0, -1, 0}, {"boot", 0, 0, 0}, {"sreg", 0, 1, 0}, {"conn", 1, 0, 0},
+		{"conn", 0, -1, 0}, {"supdsnap", 0, 0, 0}, {"conn", 0, -1, 0}},
+	// OUTDATED non-nil result: the block the rescan saw was reorged out and the tx
+	// (resp. a conflicting spender) was re-included at tip before the answer arrives
+	{{"pre", 0, -1, 0}, {"pre", 1, 0, 0}, {"pre", 0, -1, 0}, {"boot", 0, 0, 0},
+		{"reg", 0, 1, 1}, {"disc", 0, 0, 0}, {"disc", 0, 0, 0}, {"conn", 0, -1, 0},
+		{"conn", 1, 0, 0}, {"conn", 0, -1, 0}, {"updsnap", 0, 0, 0}, {"conn", 0, -1, 0}},
+	{{"pre", 0, -1, 0}, {"pre", 1, 0, 0}, {"pre", 0, -1, 0}, {"boot", 0, 0, 0},
+		{"sreg", 0, 1, 0}, {"disc", 0, 0, 0}, {"disc", 0, 0, 0}, {"conn", 0, -1, 0},
+		{"conn", 1, 1, 0}, {"conn", 0, -1, 0}, {"supdsnap", 0, 0, 0}, {"conn", 0, -1, 0}},
 }
 
 func xDirectedCase(t *testing.T, hc *channeldb.HeightHintCache, ci int, script []xStep,
-	limit int) *xCase {
+	limit int) *xWorld {
 
 	w := xNewWorld(t, hc, ci, 0, limit, "directed")
 	for _, s := range script {
@@ -1051,6 +1242,18 @@ func xDirectedCase(t *testing.T, hc *channeldb.HeightHintCache, ci int, script [
 			} else {
 				w.opUpd(s.a, nil, "index")
 			}
+		case "updsnap":
+			if ps := w.cpend[s.a]; len(ps) > 0 {
+				w.cpend[s.a] = ps[1:]
+				w.ustart = ps[0].start
+				w.opUpd(s.a, ps[0].snap, "snapshot")
+			}
+		case "supdsnap":
+			if ps := w.spend[s.a]; len(ps) > 0 {
+				w.spend[s.a] = ps[1:]
+				w.ustart = ps[0].start
+				w.opSUpd(s.a, ps[0].snap, "snapshot")
+			}
 		case "supd":
 			if h, x := w.findSpend(s.a, 1, w.cur()); h > 0 {
 				w.opSUpd(s.a, []int{h, x}, "index")
@@ -1059,7 +1262,7 @@ func xDirectedCase(t *testing.T, hc *channeldb.HeightHintCache, ci int, script [
 			}
 		}
 	}
-	return w.rec
+	return w
 }
 
 func TestVerifTxNotifier(t *testing.T) {
@@ -1117,7 +1320,7 @@ func TestVerifTxNotifier(t *testing.T) {
 		go func() {
 			defer wg.Done()
 			for j := range ch {
-				var c *xCase
+				var c *xWorld
 				if j.script != nil {
 					c = xDirectedCase(t, hc, j.ci, j.script, j.lim)
 				} else if j.code == nil {
@@ -1125,7 +1328,8 @@ func TestVerifTxNotifier(t *testing.T) {
 				} else {
 					c = xEnumCase(t, hc, j.ci, j.code, j.lim)
 				}
-				out.emit(c)
+				out.emit(c.rec)
+				out.emit(xRestartCase(t, hc, c))
 			}
 		}()
 	}
